@@ -16,6 +16,12 @@ Obs == [views |-> [r \in Replicas |-> KView(st[r].snap)],
         pend  |-> [r \in Replicas |-> Mine(r)]]
 \* exhaustive mode: every generated transition, with one path to its source state
 EdgeDump == PrintT("EDGE " \o ToJson([hist |-> hist', obs |-> Obs']))
+\* complete histories only: transitions into a state in which every operation issued has been pushed and delivered to
+\* everybody. The log is part of the state, so there is one exported path per (set of operations with their timestamps,
+\* log order): what the outcome of conflicting operations may depend on. Used for configurations whose full edge dump
+\* would be gigabytes (three replicas contending for one key).
+AllDelivered == \A r \in Replicas : outbox[r] = <<>> /\ pulled[r] = Len(log)
+FinalEdgeDump == (AllDelivered' /\ Len(log') >= 3) => PrintT("EDGE " \o ToJson([hist |-> hist', obs |-> Obs']))
 \* simulation mode: every state of every walk
 \* TLC evaluates invariants on every candidate successor before it picks one, so a level can show several
 \* lines; pact (the parent's action) tells the harness which candidate of the previous level was taken.
